@@ -12,7 +12,7 @@ MANIFEST = dict(
          "monitor accepts the ideal replay for every store / request range in the bound and rejects the deviation "
          "gapfill_seq_is_next_send, and exports the transition cover. Each history, plus an enumeration of stores (every "
          "subset of sent numbers stored, by mixing admin and application sends) x ranges [B,E] incl. E=0, B>last, E>last, "
-         "with and without persister, is executed on the real Session; the monitor walks the answer on the wire "
+         "with and without persister, with the request numbered in sequence or ahead of it, is executed on the real Session; the monitor walks the answer on the wire "
          "(retransmissions with PossDup, original id and OrigSendingTime; GapFills with MsgSeqNum = gap start and NewSeqNo "
          "= next stored; coverage of the range; next send number = last NewSeqNo).",
     note="Body fidelity is judged through the application id (ClOrdID) carried by each message; a final GapFill may extend "
@@ -46,7 +46,10 @@ def extras(ctx):
                     else:
                         ex.admin("heartbeat")
                 ex.at(100)
-                ex.recv("2", body=[(7, b), (16, e)])
+                # the request's own number: in sequence, or (every third case) one or two ahead - both sides lost messages
+                k = len(out) % 3
+                ahead = (1 + len(out) % 2) if k == 2 else 0
+                ex.recv("2", seq=ex.peer_seq + ahead if ahead else None, body=[(7, b), (16, e)])
                 ex.send(nid)                       # a new message afterwards must continue from the last NewSeqNo (C16 clause)
                 out.append(ex)
     return out
